@@ -141,6 +141,18 @@ def check_result(tag, net, res, mode, stats):
         if p["xy"] == "adj" or p["z"] == "adj":
             a = adj.get(p["id"])
             if a is None:
+                # known finding: a total-station target (direction + slope distance + zenith angle, no horizontal distance)
+                # whose station is itself a computed point gets its approximate position from the local-system constant
+                kf = False
+                if (p.get("recipe") or [None])[0] == "polar3d" and not p["give_xy"]:
+                    Pm = {q["id"]: q for q in net["points"]}
+                    for cl in net["clusters"]:
+                        if cl["k"] == "obs" and any(o["t"] == "s-distance" and o["to"] == p["id"] for o in cl["obs"]) \
+                                and not Pm[cl["from"]]["give_xy"]:
+                            kf = True
+                if kf:
+                    return ["%s.polar3d_from_computed_station: point %s (direction + slope distance + zenith angle from a station whose own "
+                            "coordinates are computed) is not among the adjusted points" % (tag, p["id"])]
                 fails.append("%s.missing_point: unknown point %s (recipe %s, xy given %s, z given %s) is not among the adjusted points" %
                              (tag, p["id"], p.get("recipe"), p["give_xy"], p["give_z"]))
                 continue
